@@ -143,3 +143,35 @@ def strip_wide_casts(term):
             return strip_wide_casts(term[2])
         return tuple(strip_wide_casts(x) for x in term)
     return term
+
+
+FACADE = "hta.trace_analysis"
+
+
+def check_facade_stateless(db, chk, rule: str, methods: Iterable[str]) -> None:
+    """the TraceAnalysis wrappers of a property keep nothing on the TraceAnalysis object between calls: every call recomputes from the
+    trace and its own arguments (a per-object result cache keyed by some of the arguments returns stale results for the others)"""
+    m = db.mod(FACADE)
+    for name in methods:
+        f = m.func(f"TraceAnalysis.{name}")
+        bad = []
+        for n in ast.walk(f):
+            if isinstance(n, (ast.Assign, ast.AugAssign, ast.AnnAssign)):
+                for t in (n.targets if isinstance(n, ast.Assign) else [n.target]):
+                    base = t
+                    while isinstance(base, (ast.Subscript, ast.Attribute)) and not (isinstance(base, ast.Attribute) and isinstance(base.value, ast.Name)):
+                        base = base.value
+                    if isinstance(base, ast.Attribute) and isinstance(base.value, ast.Name) and base.value.id == "self" and not (base.attr == "t" and t is not base):
+                        bad.append(" ".join(ast.unparse(n).split())[:90])
+            if isinstance(n, ast.Attribute) and n.attr == "__dict__" and isinstance(n.value, ast.Name) and n.value.id == "self":
+                bad.append(f"self.__dict__ at line {n.lineno}")
+            if isinstance(n, ast.Call) and isinstance(n.func, ast.Name) and n.func.id in ("setattr", "vars") and n.args and isinstance(n.args[0], ast.Name) and n.args[0].id == "self":
+                bad.append(" ".join(ast.unparse(n).split())[:90])
+            if isinstance(n, ast.Call) and isinstance(n.func, ast.Attribute) and n.func.attr in H._MUT_METHODS and isinstance(n.func.value, ast.Attribute) \
+                    and isinstance(n.func.value.value, ast.Name) and n.func.value.value.id == "self":
+                bad.append(" ".join(ast.unparse(n).split())[:90])
+        decos = [ast.unparse(d) for d in f.decorator_list if any(k in ast.unparse(d) for k in ("cache", "memo"))]
+        chk.ob(rule, f"TraceAnalysis.{name} keeps no state on the TraceAnalysis object (no attribute store, no self.__dict__, no memoising decorator)", not bad and not decos, m.loc(f),
+               found=sorted(set(bad)) + decos or "stateless", accepted="every call recomputes from self.t and its arguments",
+               why="a result cache keyed by (rank, streams, ...) but not by every argument (e.g. consecutive_kernel_delay) answers a later call with the earlier call's result",
+               key=f"{FACADE}:TraceAnalysis.{name}|facade-state")
